@@ -314,7 +314,21 @@ func c16GenSqliteSession(r *common.Rand) (uint64, []c16Msg) {
 			e := pool[r.Intn(np)]
 			msgs = append(msgs, c16Msg{K: "event", E: &e})
 		case x < 80:
-			msgs = append(msgs, c16Msg{K: "req", Sub: common.Pick(r, subs), Fs: c16GenSqlFilters(r, ids)})
+			fs := c16GenSqlFilters(r, ids)
+			if r.Chance(20) {
+				// both values of a tag letter and a small limit: an event that carries both must count once
+				var tc common.JTagCond
+				switch r.Intn(3) {
+				case 0:
+					tc = common.JTagCond{Name: "p", Vals: []string{c16SqlPKs[0], c16SqlPKs[1]}}
+				case 1:
+					tc = common.JTagCond{Name: "t", Vals: []string{c16SqlFree[0], c16SqlFree[1]}}
+				default:
+					tc = common.JTagCond{Name: "e", Vals: []string{c16SqlID(0), c16SqlID(1 % np)}}
+				}
+				fs = []common.JFilter{{Tags: common.Ptr([]common.JTagCond{tc}), Limit: common.Ptr(int64(1 + r.Intn(3)))}}
+			}
+			msgs = append(msgs, c16Msg{K: "req", Sub: common.Pick(r, subs), Fs: fs})
 		case x < 87:
 			msgs = append(msgs, c16Msg{K: "count", Sub: common.Pick(r, subs), Fs: c16GenSqlFilters(r, ids)})
 		case x < 94:
